@@ -548,3 +548,7 @@ REGISTRY["C09"]["theorems"] += T("Proofs.C09c", "BLDFM.C09", ["phiM_hasDerivAt_z
 
 # C11: over-request = exact request at the level of the returned result
 REGISTRY["C11"]["theorems"] += T("Proofs.C11c", "BLDFM.C11", ["solveOk_of_geom_eq", "clamp_output"])
+
+# the FFT layer is on the path of every solver-family property (found by C11p: a change inside FFTManager.fft2 broke no obligation of C11)
+for _p in ("C01", "C02", "C03", "C04", "C05", "C06", "C07", "C10", "C11"):
+    _add_bodies(_p, ["fft_fft2", "fft_ifft2", "fft_get_manager", "fftmgr_init", "fftmgr_fft2", "fftmgr_ifft2"])
